@@ -35,14 +35,7 @@ def gen_cases(rng, n, focus=None):
 
 def run_property(chk, pid, module, theorems, n_quick, n_thorough, focus=None, extra_cases=None, nontrivial=None, extra=None):
     quick = chk.tier != "thorough"
-    from . import extractors
-    extractors.regen_all()
-    failed, log = chk.prove(module, theorems)
-    for t in failed:
-        chk.violation("proof", f"obligation {t} no longer checks", theorem=t, log=log[-3000:])
-    ok, log = core.lake_build(["gedriver"])
-    if not ok:
-        raise core.BrokenTie("driver-build", log)
+    chk.model_tie([(module, theorems)])
     rng = chk.rng.fork(pid)
     cases = list(extra_cases(rng.fork("extra"), quick) if extra_cases else [])
     cases += gen_cases(rng, n_quick if quick else n_thorough, focus)
